@@ -97,9 +97,9 @@ def _install_contracts():
     contracts.post(M.MultipartDecoder, "next_event", "decoder-transition", snap, cond, describe)
 
 
-def decode(M, body, boundary, cuts):
-    """Feed body cut at `cuts` (sorted offsets) and return the list of parts or ('EXC', type, msg)."""
-    d = M.MultipartDecoder(boundary)
+def decode(M, body, boundary, cuts, max_parts=None):
+    """Feed body cut at `cuts` (sorted offsets, repeats = empty pieces) and return the list of parts or ('EXC', type, msg)."""
+    d = M.MultipartDecoder(boundary) if max_parts is None else M.MultipartDecoder(boundary, max_parts=max_parts)
     parts = []
     cur = None
     prev = 0
@@ -151,11 +151,11 @@ class ShortReader(io.RawIOBase):
 PARSERS = {}
 
 
-def parse_high(FP, body, boundary, buffer_size=None, short=None):
+def parse_high(FP, body, boundary, buffer_size=None, short=None, max_form_parts=None):
     try:
         stream = ShortReader(body, short) if short else io.BytesIO(body)
         kw = {} if buffer_size is None else {"buffer_size": buffer_size}
-        parser = PARSERS.get(buffer_size)
+        parser = PARSERS.get(buffer_size) if max_form_parts is None else FP.MultiPartParser(max_form_parts=max_form_parts, **kw)
         if parser is None:
             # history: one parser object per buffer size serves every body of the run (a parse leaves nothing behind)
             parser = PARSERS[buffer_size] = FP.MultiPartParser(**kw)
@@ -299,9 +299,9 @@ def check_body(M, FP, rec, rng, cfg, body, cls, bnd, expected, case_base):
     multi = len(expected) >= 2
     state = {"dead": False}
 
-    def one(cuts, mode="decoder"):
+    def one(cuts, mode="decoder", max_parts=None):
         rec.case()
-        got = decode(M, body, bnd, cuts)
+        got = decode(M, body, bnd, cuts, max_parts)
         nt = multi
         for c in cuts:
             k = chr(cls[c - 1]) if cls[c - 1] == cls[c] else chr(cls[c - 1]) + chr(cls[c])
@@ -311,7 +311,7 @@ def check_body(M, FP, rec, rng, cfg, body, cls, bnd, expected, case_base):
                 nt = True
         if nt:
             rec.nontrivial(hash((bid, cuts)) & 0xFFFFFFFFFFFFFFFF)
-        case = dict(case_base, mode=mode, cuts=list(cuts))
+        case = dict(case_base, mode=mode, cuts=list(cuts), max_parts=max_parts)
         contracts.flush(rec, case, "C01")
         if got != expected:
             key = classify(expected, got)
@@ -338,6 +338,18 @@ def check_body(M, FP, rec, rng, cfg, body, cls, bnd, expected, case_base):
             one(pair)
         rec.observe("three_way_zone_bodies")
     one(tuple(range(1, n)), mode="byte-at-a-time")
+    # schedules with empty pieces (an empty read / frame with more to come): one empty piece at every position,
+    # and empty pieces between all single bytes
+    for i in range(1, n, max(1, n // 40)):
+        one((i, i), mode="empty-piece")
+    one(tuple(j for i in range(1, n) for j in (i, i)), mode="empty-pieces-byte-at-a-time")
+    rec.observe("schedules_with_empty_pieces")
+    # a part limit that the body exactly meets is not exceeded, however the body arrives
+    if expected:
+        for i in range(1, n, max(1, n // 60)):
+            one((i,), mode="max-parts-exact", max_parts=len(expected))
+        one(tuple(range(1, n)), mode="max-parts-exact-byte-at-a-time", max_parts=len(expected))
+        rec.observe("schedules_with_exact_part_limit")
     for _ in range(cfg["rand_splits"]):
         k = rng.randrange(3, min(n, 12)) if n > 4 else 1
         one(tuple(sorted(rng.sample(range(1, n), min(k, n - 1)))) if n > 1 else ())
@@ -356,6 +368,14 @@ def check_body(M, FP, rec, rng, cfg, body, cls, bnd, expected, case_base):
             rec.violation(key, f"buffer_size={bs}: expected {exp_high!r} got {got!r}", case, monitor="boundary-recorder")
             break
     rec.observe("parser_buffer_sizes", len(sizes))
+    if expected:
+        for bs in (1, 7, 50):
+            rec.case()
+            got = parse_high(FP, body, bnd, buffer_size=bs, max_form_parts=len(expected))
+            case = dict(case_base, mode="parser-exact-part-limit", buffer_size=bs)
+            if got != exp_high:
+                rec.violation("C01/parser-exact-part-limit:" + classify_high(exp_high, got), f"buffer_size={bs}, max_form_parts={len(expected)}: expected {exp_high!r} got {got!r}", case)
+                break
     for k in (1, 2, 3, 7):
         rec.case()
         got = parse_high(FP, body, bnd, buffer_size=rng.choice((5, 16, 64 * 1024)), short=k)
